@@ -40,8 +40,8 @@ CHECKS = {
         technique="deterministic simulation: discrete-event ticks, lossy/late/duplicate acknowledgements, restart faults, history check against a per-message reference model",
         ref="DESIGN.md §6 C09"),
     "C10": dict(
-        text="Seeded operation histories (create with adversarial field values, find/exists of present and absent ids, update of every field, delete, queries with AND/OR groups incl. sub-conditions that match nothing and NULL tests, numeric/text order keys, offset/limit windows) on each of the six collections and both backends, with close+reopen of the SQLite file between operations as the applicable fault; every answer (records field by field, row set, order, count/page_count/page_num/page_size) is compared with RefCollection, hence the backends with each other. The statement has no scheduling dimension and none is pretended. Sampling: evidence, not proof.",
-        note="Trusted: RefCollection (BTreeMap + direct evaluator; text order = byte order; a record without a value is `not equal` to a value). Operations the statement leaves open are not generated (duplicate create, update/delete of absent ids, range operators on text, paging without a total order). Collections are reached through hook H1 on engines built with and without the SQLite plugin.",
+        text="Seeded operation histories (create with adversarial field values, find/exists of present and absent ids, update of every field, delete, a second create of an existing id, update/delete of absent or already deleted ids, queries with AND/OR groups incl. sub-conditions that match nothing and NULL tests, numeric/text order keys, offset/limit windows) on each of the six collections and both backends, with close+reopen of the SQLite file between operations as the applicable fault; every answer (records field by field, row set, order, count/page_count/page_num/page_size) is compared with RefCollection, hence the backends with each other. The statement has no scheduling dimension and none is pretended. Sampling: evidence, not proof.",
+        note="Trusted: RefCollection (BTreeMap + direct evaluator; text order = byte order; a record without a value is `not equal` to a value). A second create of an id is refused, update/delete of an absent id answer false and create nothing (what a keyed collection does, and what SQLite does). Operations the statement leaves open are not generated (range operators on text, paging without a total order). Collections are reached through hook H1 on engines built with and without the SQLite plugin.",
         technique="deterministic simulation harness used as a seeded history generator against a reference collection, with close/reopen faults",
         ref="DESIGN.md §6 C10"),
     "C11": dict(
